@@ -11,7 +11,7 @@ What is proved: `text_chunk_invariant` (chains of text filters: unconditional, a
 theorems of `Proofs/FilterSplit.lean` re-exported below.
 -/
 import RioModel.Proofs.FilterText
-import RioModel.Proofs.FilterSplit
+import RioModel.Proofs.FilterTotal
 import RioModel.Model.FilterHtml
 set_option linter.unusedSimpArgs false
 set_option linter.unusedVariables false
@@ -107,23 +107,32 @@ theorem text_filters_chunk_invariant (tk : Tokenize) (ev : Bytes → Bytes → B
 
 /-! ### html filters at safe cuts (partial) -/
 
-/-- **Splitting lemma** (one html stage, two calls): at a safe cut — `SafeCut tk L x y`, a decidable statement about
-three tokenizations: prefix stability + restart on the held tail + character boundary + same held token, see
-`Proofs/FilterSplit.lean` — `filter(x)` then `filter(y)` leaves the stage in the state of `filter(x ++ y)` and emits
-the same bytes. -/
-theorem split_lemma (tk : Tokenize) (ev : Bytes → Bytes → Bool) (s s1 : HtmlSt) (x y o1 : Bytes)
+/-- **Splitting lemma** (one html stage): at a safe cut, the total output — outputs of the `filter` calls followed by
+`end()` — on `x ++ r` is the output of `filter(x)` followed by the total of the new state on `r`.
+`SafeCutT tk L x r` is a decidable statement about three tokenizations (Proofs/FilterTotal.lean): up to splitting of
+text tokens, the tokens of `L ++ x ++ r` are the tokens processed for `L ++ x` (prefix stability) followed by the
+tokens of a FRESH tokenizer on `held tail ++ r` (restart), same remainder, held tail at a character boundary. -/
+theorem split_lemma (tk : Tokenize) (ev : Bytes → Bytes → Bool) (s s1 : HtmlSt) (x r o1 : Bytes)
+    (h1 : filterHtml tk ev s x = some (s1, o1)) (hsafe : SafeCutT tk s.last x r) :
+    htmlTotal tk ev s (x ++ r) = (htmlTotal tk ev s1 r).map fun t => o1 ++ t :=
+  total_split tk ev s s1 x r o1 h1 hsafe
+
+/-- the strict form: when the token lists agree exactly (`SafeCut`), even the states agree:
+`filter(x); filter(y)` = `filter(x ++ y)` -/
+theorem split_lemma_strict (tk : Tokenize) (ev : Bytes → Bytes → Bool) (s s1 : HtmlSt) (x y o1 : Bytes)
     (h1 : filterHtml tk ev s x = some (s1, o1)) (hsafe : SafeCut tk s.last x y) :
     filterHtml tk ev s (x ++ y) = (filterHtml tk ev s1 y).map fun r => (r.1, o1 ++ r.2) :=
   filterHtml_merge tk ev s s1 x y o1 h1 hsafe
 
 /-- **Chunk invariance at safe cuts** for a chain that consists of one html filter: for every non-empty schedule all
-of whose cuts are safe (`SafeCuts`, each cut seen from the cumulative prefix) and on which no call fails (valid UTF-8
-body), the concatenated output is the output of the single chunk.  No tokenizer law is assumed: what the proof needs
-from the tokenizer is exactly the hypothesis `SafeCuts`, which the driver evaluates (`safeCutsB`) on the tokenizer
-model.  That `SafeCuts` holds at every cut outside a comment / declaration / CDATA / raw-text zone is a property of
-the tokenizer that is differential-tested (every single cut of every generated body), not proved. -/
+of whose cuts are safe (`SafeRun`: each cut seen from the state the stage is in when the chunk arrives, with
+everything that follows as continuation) and on which no call fails (valid UTF-8 body), the concatenated output is the
+output of the single chunk.  No tokenizer law is assumed: what the proof needs from the tokenizer is exactly the
+hypothesis, which is executable (`safeRunB`) and is evaluated on the tokenizer model by the driver and on the real
+tokenizer by the harness.  That it holds at every cut outside a comment / declaration / CDATA / raw-text zone is a
+property of the tokenizer that is differential-tested (every single cut of every generated body), not proved. -/
 theorem chunk_invariant_partial (tk : Tokenize) (ev : Bytes → Bytes → Bool) (codec : Codec D E)
-    (s : HtmlSt) (cs : List Bytes) (hne : cs ≠ []) (hsafe : SafeCuts tk s cs)
+    (s : HtmlSt) (cs : List Bytes) (hne : cs ≠ []) (hsafe : SafeRun tk ev s cs)
     (hok : seqRun tk ev s cs ≠ none) :
     ({ items := [.html s] } : Chain D E).run tk ev codec cs =
       ({ items := [.html s] } : Chain D E).run tk ev codec [cs.flatten] := by
@@ -131,20 +140,28 @@ theorem chunk_invariant_partial (tk : Tokenize) (ev : Bytes → Bytes → Bool) 
   | none => exact absurd hr hok
   | some r =>
     obtain ⟨s', o⟩ := r
-    have hm := seqRun_merge tk ev s cs hne hsafe
-    rw [hr] at hm
-    rw [run_single_html tk ev codec cs s s' o hr, run_single_html tk ev codec [cs.flatten] s s' o hm.symm]
+    have ht := seqRun_total tk ev cs s s' o hne hsafe hr
+    rw [run_single_html tk ev codec cs s s' o hr]
+    unfold htmlTotal at ht
+    cases hf : filterHtml tk ev s cs.flatten with
+    | none => simp [hf] at ht
+    | some rb =>
+      obtain ⟨sb, ob⟩ := rb
+      simp only [hf, Option.map_some] at ht
+      injection ht with ht
+      have hs : seqRun tk ev s [cs.flatten] = some (sb, ob) := by simp [seqRun, hf]
+      rw [run_single_html tk ev codec [cs.flatten] s sb ob hs, ht]
 
 /-- the Boolean evaluated by the driver implies the hypothesis -/
-theorem safeCutsB_implies (tk : Tokenize) (s : HtmlSt) (cs : List Bytes) (h : safeCutsB tk s cs = true) :
-    SafeCuts tk s cs :=
-  safeCutsB_sound tk s cs h
+theorem safeRunB_implies (tk : Tokenize) (ev : Bytes → Bytes → Bool) (s : HtmlSt) (cs : List Bytes)
+    (h : safeRunB tk ev s cs = true) : SafeRun tk ev s cs :=
+  safeRunB_sound tk ev cs s h
 
 /-- `chunk_invariant_partial` is not vacuous on the tokenizer model of the real tokenizer: the schedule
-`<di` ‖ `v><p>x</` ‖ `p></div>` (cuts inside a start tag and inside an end tag) is safe, the filter acts
-(`$` is prepended in `<p>`), and both runs agree — by the theorem, not by evaluation of the two runs. -/
+`<di` ‖ `v><p>x y` ‖ ` z</` ‖ `p></div>` (cuts inside a start tag, inside plain text, inside an end tag) is safe, the
+filter acts (`$` is prepended in `<p>`), and both runs agree — by the theorem, not by evaluating the two runs. -/
 def safeBody : List Bytes :=
-  [[60, 100, 105], [118, 62, 60, 112, 62, 120, 60, 47], [112, 62, 60, 47, 100, 105, 118, 62]]
+  [[60, 100, 105], [118, 62, 60, 112, 62, 120, 32, 121], [32, 122, 60, 47], [112, 62, 60, 47, 100, 105, 118, 62]]
 
 def safeStage : HtmlSt := HtmlSt.new { kind := .prepend, cur := [112], content := [36] }
 
@@ -152,7 +169,7 @@ theorem safe_example :
     ({ items := [.html safeStage] } : Chain Unit Unit).run htmlTokenize evalStandIn noCodec safeBody =
       ({ items := [.html safeStage] } : Chain Unit Unit).run htmlTokenize evalStandIn noCodec [safeBody.flatten] :=
   chunk_invariant_partial htmlTokenize evalStandIn noCodec safeStage safeBody (by decide)
-    (safeCutsB_sound htmlTokenize safeStage safeBody (by decide +kernel))
+    (safeRunB_sound htmlTokenize evalStandIn safeBody safeStage (by decide +kernel))
     (by
       have : (seqRun htmlTokenize evalStandIn safeStage safeBody).isSome = true := by decide +kernel
       intro h; rw [h] at this; simp at this)
@@ -160,12 +177,12 @@ theorem safe_example :
 /-- ... and the filter does act on that input -/
 theorem safe_example_acts :
     ({ items := [.html safeStage] } : Chain Unit Unit).run htmlTokenize evalStandIn noCodec [safeBody.flatten] =
-      [60, 100, 105, 118, 62, 60, 112, 62, 36, 120, 60, 47, 112, 62, 60, 47, 100, 105, 118, 62] := by
+      [60, 100, 105, 118, 62, 60, 112, 62, 36, 120, 32, 121, 32, 122, 60, 47, 112, 62, 60, 47, 100, 105, 118, 62] := by
   decide +kernel
 
-/-- the D4 witness is (of course) not a safe cut -/
+/-- the D4 witness is (of course) not a safe run -/
 theorem witness_not_safe :
-    safeCutsB htmlTokenize (HtmlSt.new { kind := .prepend, cur := [112], content := [36] }) witnessChunks = false := by
+    safeRunB htmlTokenize evalStandIn (HtmlSt.new { kind := .prepend, cur := [112], content := [36] }) witnessChunks = false := by
   decide +kernel
 
 /-! ### non-vacuity -/
